@@ -85,9 +85,9 @@ claims = {
    note="Annotation key validity = dynamic comparability.",
    technique="bounded exhaustive enumeration of option sequences against a fold model"),
  "C20": dict(level="exploration", design="4/C20",
-   text="Complete product of resolver configuration x (previous request kind, request kind) x remote address, the route handler sweeping every status 100..999, implicit 200, nothing, redirects with/without Location and panic; each request served with and without the Logger (differential) and the single captured record compared with a record model (status, method/host/path, message per the three-way rule, level, location, emitted after the handler).",
+   text="Complete product of resolver configuration x (previous request kind, request kind) x remote address, the route handler sweeping every status 100..999, implicit 200, nothing, redirects with/without Location and panic; each request served with and without the Logger (differential) and the single captured record compared with a record model (status, method/host/path, message per the three-way rule, level, location, emitted after the handler). Part concurrent: two requests inside one Logger instance under the controlled scheduler (scheduling points in the resolver, the slog handler and the route handler), every interleaving up to 2 preemptions (quick) / unbounded (thorough): every record describes one request only.",
    note="Level judged for 200..599 only; for an unparsable remote address only count/status/level are demanded.",
-   technique="exhaustive product enumeration against a record model + differential with/without the middleware"),
+   technique="exhaustive product enumeration against a record model + differential with/without the middleware; stateless preemption-bounded schedule exploration for overlapping requests"),
 }
 
 pending = "check not built yet in this round (planned: bounded exhaustive exploration, see DESIGN.md section 4)"
